@@ -7,6 +7,7 @@ import (
 	//lint:ignore SA1019 we use the old v1 package because
 	//  we need to support older generated messages
 	"github.com/golang/protobuf/proto"
+	"github.com/jhump/protoreflect/dynamic"
 	"google.golang.org/grpc/encoding"
 	grpcproto "google.golang.org/grpc/encoding/proto"
 
@@ -89,13 +90,24 @@ func CloneFunc(fn func(interface{}) (interface{}, error)) Cloner {
 // function is used to copy the input to the newly created value.
 func CopyFunc(fn func(out, in interface{}) error) Cloner {
 	cloneFn := func(in interface{}) (interface{}, error) {
-		clone := reflect.New(reflect.TypeOf(in).Elem()).Interface()
+		clone := newValueLike(in)
 		if err := fn(clone, in); err != nil {
 			return nil, err
 		}
 		return clone, nil
 	}
 	return &funcCloner{clone: cloneFn, copy: fn}
+}
+
+// newValueLike returns a new, empty value of the same type as in, for a copy
+// function to fill. A dynamic message is more than its Go type: the zero value
+// of dynamic.Message has no descriptor and cannot be unmarshalled or copied
+// into, so the new one is created for the same message type as in.
+func newValueLike(in interface{}) interface{} {
+	if dm, ok := in.(*dynamic.Message); ok && dm != nil {
+		return dynamic.NewMessage(dm.GetMessageDescriptor())
+	}
+	return reflect.New(reflect.TypeOf(in).Elem()).Interface()
 }
 
 // CodecCloner uses the given codec to implement the Cloner interface. The Copy
